@@ -73,6 +73,7 @@ def make_packages(ctx):
         ("map", {"n": 3, "p_new": 0.5}),
         ("map", {"n": 4, "p_new": 0.0}),
         ("map", {"n": 2, "p_new": 0.5}),
+        ("maprich", None), ("maprich", None),
         ("enum", None), ("rest", {"headers": None}), ("rest", None),
     ]
     pks += detgen.hand_new_pkgs() + detgen.hand_map_pkgs(rng)
@@ -81,7 +82,7 @@ def make_packages(ctx):
     n = ctx.n(60, 360) - len(pks)
     for _ in range(max(0, n)):
         r = rng.random()
-        cmd = "new" if r < 0.55 else "map" if r < 0.8 else "enum" if r < 0.9 else "rest"
+        cmd = "new" if r < 0.5 else "map" if r < 0.7 else "maprich" if r < 0.82 else "enum" if r < 0.91 else "rest"
         pks.append(detgen.GENS[cmd](rng))
     return pks
 
@@ -92,7 +93,7 @@ def run_packages(ctx, pks):
         pk["id"] = "p%d" % i
         pk["variants"], pk["perm"] = variants(pk, ctx.rng)
         for v, runs in pk["variants"].items():
-            b.add({"id": pk["id"] + v, "files": pk["files"],
+            b.add({"id": pk["id"] + v, "files": {k: c.replace("@DEST@", "%s/c_%s/dest" % (pkgrun.MOD, pk["id"] + v)) for k, c in pk["files"].items()},
                    "runs": [dict(r) for r in pk["setup"]] + [{"args": a, "cwd": pk["cwd"]} for a in runs]})
     out = b.execute(build=False)
     # describe every generated file of the measured runs
@@ -140,7 +141,7 @@ def type_lines(pk, r, order, other=None):
         if pk["cmd"] == "new":
             if d is not None:
                 im.update(detgen.new_lines(t, f))
-        elif pk["cmd"] == "map":
+        elif pk["cmd"] == "map" and not pk.get("rich"):
             if d is not None:
                 im.update(detgen.map_lines(t, f))
         else:
@@ -220,8 +221,10 @@ def post_model(cases, impl, model):
             if "imports" in d:
                 d["imports"] = " ".join(sorted(d["imports"].split(" "))) if d["imports"] else ""
             for k in list(d):
-                if k.startswith(("jget:", "jset:", "jexp:", "tags:")) and d[k] != "-":
+                if k.startswith(("jget:", "jset:", "jexp:")) and d[k] != "-":
                     d[k] = ",".join(sorted(d[k].split(",")))       # compared as sets (statement order is the template's business)
+                if k.startswith("tags:") and d[k] != "-":
+                    d[k] = ";".join(sorted(d[k].split(";")))
             if c["id"].endswith("m"):
                 if "star-eq" in impl[c["id"]]:
                     d["star-eq"] = "true"      # impl-vs-impl leg (`-type=*` against `-file=`): no model, the property says equal
